@@ -504,7 +504,63 @@ func check(prop, tier string, seed int64, budget, workers, maxSeeds int, race, n
 		budget = tierBudget(prop, tier)
 	}
 	fmt.Printf("verifctl: property=%s tier=%s VERIF_SEED=%d workers=%d budget=%ds build=%.1fs\n", prop, tier, seed, workers, budget, buildS)
+	// regression phase: every recorded scenario of this property (the replay of each defect that was
+	// found and repaired, and of each corrected false alarm) must hold on the tree under test
+	regressExit, regressRun := 0, 0
+	if os.Getenv("VERIF_NO_REGRESS") == "" {
+		files, _ := filepath.Glob(filepath.Join(verifDir, "regress", prop+"-*.json"))
+		sort.Strings(files)
+		type rres struct {
+			file string
+			v    *Verdict
+		}
+		out := make([]rres, len(files))
+		var rwg sync.WaitGroup
+		sem := make(chan struct{}, workers)
+		for i, f := range files {
+			rwg.Add(1)
+			go func(i int, f string) {
+				defer rwg.Done()
+				sem <- struct{}{}
+				defer func() { <-sem }()
+				b, err := os.ReadFile(f)
+				if err != nil {
+					return
+				}
+				var sc map[string]interface{}
+				d := json.NewDecoder(bytes.NewReader(b))
+				d.UseNumber()
+				if d.Decode(&sc) != nil {
+					return
+				}
+				exp, _ := sc["expect"].(string)
+				w, r := pick(exp)
+				out[i] = rres{f, evalScenario(w, prop, sc, r, 20)}
+			}(i, f)
+		}
+		rwg.Wait()
+		findings := loadFindings()
+		for _, r := range out {
+			if r.v == nil {
+				continue
+			}
+			regressRun++
+			if r.v.OK || r.v.Invalid || matchKnown(findings, prop, r.v.Class, r.v.Signature) != nil {
+				continue
+			}
+			fmt.Printf("violation class=%s signature=%q (recorded scenario %s fails again)\n  %s\n", r.v.Class, r.v.Signature, filepath.Base(r.file), oneLine(r.v.Detail, 600))
+			fmt.Printf("VIOLATION property=%s replay=%s\n", prop, r.file)
+			regressExit = 1
+		}
+		fmt.Printf("verifctl: %d recorded scenarios replayed\n", regressRun)
+		if regressExit != 0 && os.Getenv("VERIF_STOP_FIRST") != "" {
+			return regressExit // self-test sweeps only ask whether anything is found
+		}
+	}
 	agg := newAgg()
+	for i := 0; i < regressRun; i++ {
+		agg.probe("regress.recorded-scenarios-replayed")
+	}
 	deadline := time.Now().Add(time.Duration(budget) * time.Second)
 	stopFirst := os.Getenv("VERIF_STOP_FIRST") != "" // stop exploring at the first violation (self-tests)
 	stopFindings := loadFindings()
@@ -771,7 +827,10 @@ func check(prop, tier string, seed int64, budget, workers, maxSeeds int, race, n
 		fmt.Printf("VIOLATION property=%s replay=%s\n", prop, path)
 		exit = 1
 	}
-	writeEvidence(prop, tier, seed, agg, sgStats, time.Since(t0).Seconds(), buildS, exploreS, len(order)-len(knownLines), knownLines, workers, race)
+	if regressExit != 0 {
+		exit = 1
+	}
+	writeEvidence(prop, tier, seed, agg, sgStats, time.Since(t0).Seconds(), buildS, exploreS, len(order)-len(knownLines)+regressExit, knownLines, workers, race)
 	if agg.evals == 0 && exit == 0 && len(knownLines) == 0 {
 		infra("no scenario was evaluated")
 	}
